@@ -9,7 +9,43 @@ ALGO_TRUST = ['Go unicode tables (dumped from the runtime on every run and used 
               'the functional model (Model/Algo.lean), the array-faithful slab model (Model/AlgoSlab.lean) and the '
               'implementation are compared case by case; only the generic slab lemma and the listed theorems are proved']
 
+PAT_RULE = ('queries rendered from generated ASTs (all six term kinds x negation x OR groups x mixed case x accents x escaped '
+            'spaces; texts sampled from the lines so that matches are common) plus raw strings of syntax characters; '
+            'lists of 0..8 lines (filter area also 99..3201 lines so that 0, 1 and many chunks / partitions occur); '
+            'all combinations of --exact / --no-extended / case mode / --literal / --algo / --no-sort / --tac / --nth / '
+            '--with-nth / --delimiter / --tail / --header-lines / --tiebreak / --scheme; non-trivial = a query with an OR '
+            'group, a negation or >= 2 groups over a list with both matching and non-matching lines; distinct = distinct case lines')
+
 PROPS = {
+    'C01': dict(
+        areas=[('pat', 10000, 1500000), ('filter', 6000, 600000)],
+        rule=PAT_RULE,
+        trusted=['Go unicode tables (dumped per run)', 'in-process fzf.Run bypasses the byte-level reader (C06 covers it)',
+                 'term-level matching is judged by the C02 oracle (Query.sat uses isSubseq / occurrences, not the matchers)'],
+        level_text='Lean 4 theorem for every pattern, line and match-function behaviour: an extended pattern matches iff every '
+                   'group has a term matching with the right polarity (AND of OR with negation), given the match functions '
+                   'return. parseTerms / BuildPattern / MatchItem and whole filter-mode runs (in-process fzf.Run) are compared '
+                   'with the model; the declarative Query.sat over the generated AST decides which lines must be printed.',
+        level_note='Partial: parseTerms(render q) = compile q and term-level soundness/completeness are checked per case, not yet '
+                   'proved for all inputs. Trusted: Lean kernel, standard axioms, harness, Go unicode tables.',
+        technique='Lean 4 proof (AND/OR/negation semantics by induction over term sets) + model/implementation correspondence with a declarative query oracle',
+    ),
+    'C04': dict(
+        areas=[('rank', 10000, 1500000), ('filter', 6000, 600000)],
+        rule=PAT_RULE + '; rank area: seeded rank quadruples (extremes 0/65535, ties), locally sorted lists probed at random '
+             'and sequential positions, chunk-list scripts (pushes, snapshots with/without --tail, pass-through probes), '
+             'partition counts 1..40 over 0..300 chunks',
+        trusted=['sort.Sort returns a permutation sorted w.r.t. Less (the order is a strict total order on distinct items, so '
+                 'the result is unique)', 'Go unicode tables'],
+        level_text='Lean 4 theorems: the packed uint64 comparison equals the generic lexicographic one for all uint16 '
+                   'quadruples; it is a strict total order on distinct items (asymmetric-total, transitive) with and without '
+                   '--tac; worker slices partition the snapshot for every chunk and partition count. Merger.Get under arbitrary '
+                   'probe orders, PassMerger over --tail-trimmed chunk layouts, buildResult and whole filter runs are compared '
+                   'with the model and judged against "the i-th element of the one sorted permutation".',
+        level_note='Partial: lazy merge = sort and pass-through index arithmetic for ALL layouts are checked per case, not yet '
+                   'theorems. Worker scheduling is not modelled (results are joined by slice index).',
+        technique='Lean 4 proof (order theorems by omega, slicing by induction) + model/implementation correspondence',
+    ),
     'C02': dict(
         areas=[('algo', 20000, 3000000)],
         rule=ALGO_RULE, trusted=ALGO_TRUST,
@@ -34,7 +70,7 @@ PROPS = {
         technique='Lean 4 proof (regenerated tables by decide, bonus rules) + correspondence against a reference recurrence',
     ),
     'C05': dict(
-        areas=[('algo', 20000, 2000000)],
+        areas=[('algo', 20000, 2000000), ('pat', 6000, 600000)],
         rule=ALGO_RULE + '; `pure` cases run one (line, term) under every slab state (zeroed, seeded junk, preceding call '
              'history, nil), both representations and with/without positions',
         trusted=ALGO_TRUST,
